@@ -144,9 +144,13 @@ class WorldFromFileTransformer:
     def _apply_transformers(self, world_handle: 'WorldFromFileHandle',
                             world: World, data_dict: dict):
         """Apply all transformers on the given world with given data."""
+        # The initial dictionary is the plain data read from file: copy
+        # it before any transformer replaces strings with live objects
+        # (resolved objects are not necessarily copyable)
+        initial_dict = copy.deepcopy(data_dict)
+
         for transformer in self.dict_transformers:
             passthrough_dict = data_dict
-            initial_dict = copy.deepcopy(passthrough_dict)
 
             try:
                 # Only the passthrough dict is supposed to be modifiable
